@@ -143,8 +143,9 @@ impl IndicatorInstance for ChandeMomentumOscillatorInstance {
 		self.pos_sum += right_pos - left_pos;
 		self.neg_sum += right_neg - left_neg;
 
-		let value = if self.pos_sum != 0. || self.neg_sum != 0. {
-			(self.pos_sum - self.neg_sum) / (self.pos_sum + self.neg_sum)
+		let sum = self.pos_sum + self.neg_sum;
+		let value = if sum != 0. {
+			(self.pos_sum - self.neg_sum) / sum
 		} else {
 			0.
 		};
